@@ -691,3 +691,24 @@ for _p in ("C01", "C02", "C04"):
         "channel is parked in its modulator notification; the harness observes that the reader is not answered before the writer finishes "
         "(including across the hand-over announcement) and which member list it then works with (recipients of the broadcast plus the "
         "sender, or the MEMBERS reply), after acknowledged and refused notifications; the Lean driver replays the same schedule.")
+
+
+# C05 / C01 with connections: liveness over the micro-step model (Model/MicroL.lean)
+LIVE_THMS = ["Narwhal.MicroL.C05_micro_no_ghost_member", "Narwhal.MicroL.C05_micro_members_are_live_at_quiescence",
+             "Narwhal.MicroL.C01_micro_fresh_session_has_no_memberships", "Narwhal.MicroL.live_table_ok"]
+for _p in ("C05", "C01"):
+    PROPS[_p]["theorems"] = list(PROPS[_p]["theorems"]) + ["Narwhal.Theorems.C05MicroL"]
+    PROPS[_p]["audit_files"] = list(PROPS[_p].get("audit_files", [])) + ["Narwhal/Model/MicroL.lean"]
+    PROPS[_p]["expect_theorems"] = list(PROPS[_p]["expect_theorems"]) + LIVE_THMS
+    PROPS[_p]["level_text"] += (
+        " Connections over the micro-steps (Model/MicroL.lean): one liveness bit per user; a JOIN writes a member only if that user is "
+        "live in the writing segment, the end of the last connection makes the user not live in the step that takes the index entry, and a "
+        "name is identified again only when no connection holds it and its clean-up has finished. Proved for every reachable state: a "
+        "listed member is live or owed to a clean-up that is still running; at quiescence every member is live; a name that can be "
+        "identified again is a member of nothing. Where the code makes the liveness check (under the channel lock, same segment as the "
+        "insertion), what `has_connection` asks for, and that request tasks end before the clean-up starts are read from the source on "
+        "every run (table obligation `live_table_ok`); the lat suite's ghost-member and departed-user oracles exercise the same statements "
+        "on the server.")
+    PROPS[_p]["assumptions"] = list(PROPS[_p].get("assumptions", [])) + [
+        "MicroL: a user's own JOIN is written only while that user is live — rests on `Conn::shutdown` awaiting the request tasks before "
+        "the dispatcher's shutdown (order read from the source; tokio's TaskTracker trusted)"]
